@@ -87,6 +87,13 @@ class Ctx:
                 self.known_samples[known] = {"case": case, "detail": detail}
             return
         if len(self.violations) < 200:
+            try:
+                from pgverif import pgx
+
+                if pgx.NEUTRAL_LOG:
+                    detail = "%s [parsers built last spelled out these options with their default values: %s]" % (detail, pgx.NEUTRAL_LOG)
+            except Exception:  # noqa: BLE001
+                pass
             self.violations.append({"sig": sig, "case": case, "detail": detail})
         self.counters["violations_total"] += 1
 
